@@ -24,9 +24,12 @@ Record c01case := mk_c01 {
   c_W : dyl; c_pd : dyl;                            (* diag(W) and pseudo_data = W z as computed by the code *)
   c_E : list dyl;                                   (* the Cholesky factor handed to the SVD *)
   c_Ptot : list dyl;                                (* S + P (+ C) (+ escalated ridge) from the model's own matrices *)
-  c_coef_in : dyl; c_coef_new : dyl }.
+  c_coef_in : dyl; c_coef_new : dyl;
+  c_tole : Z }.                                     (* backward-error tolerance 2^c_tole of the solve: 64 eps cond([WB;E]), see DESIGN *)
 
-Definition tolQ : Q := 1 # 10000000000.               (* 1e-10 relative, per-observation formulas *)
+(* per-observation formulas: 1e-6 relative -- the code casts sample weights to float32 and evaluates weights ** -1 in float32
+   (relative error up to 6e-8), so its W^2 reproduces w / (g'^2 V) only to single precision *)
+Definition tolQ : Q := 1 # 1000000.
 Definition tolD : dy := mkdy 1 (-27).                (* 7.5e-9: backward error of the solve, Cholesky backward error *)
 Definition tiny : dy := mkdy 1 (-900).
 
@@ -79,7 +82,8 @@ Definition check_resid (c : c01case) : bool :=
   let scales := map (fun t => dadd (dadd (dabsdot (fst t) W2Bb) (dabsdot (snd t) Eb)) (dabsdot (fst t) Wpd)) (combine Bt Et) in
   let scale := dmaxl scales in
   Nat.eqb (length b) m &&
-  forallb (fun t => dleb (dabs (dsub (fst t) (snd t))) (dadd (dmul tolD scale) tiny)) (combine lhs rhs).
+  Z.leb (c_tole c) (-12) &&
+  forallb (fun t => dleb (dabs (dsub (fst t) (snd t))) (dadd (dmul (mkdy 1 (c_tole c)) scale) tiny)) (combine lhs rhs).
 
 Definition check_shapes (c : c01case) : bool :=
   let n := length (c_B c) in
